@@ -179,19 +179,51 @@ func checkDeferredDiagnostics(c *core.Ctx) {
 	for _, fn := range prog.ModuleFuncs("linter") {
 		setsUsed[fn] = direct(fn)
 	}
+	// a helper that only answers IsEnable(R) for a constant R (`func (l *Linter) isUnusedDeclarationIgnored() bool`)
+	// stands for that test
+	enableOf := map[*ssa.Function]string{}
+	for _, fn := range lfuncs {
+		if fn == isEnable || fn.Signature.Results().Len() != 1 {
+			continue
+		}
+		rule, okAll := "", true
+		for _, rs := range core.ReturnSites(fn) {
+			call, isCall := rs.Results[0].(*ssa.Call)
+			if !isCall || call.Common().StaticCallee() != isEnable {
+				okAll = false
+				break
+			}
+			k, isK := call.Common().Args[len(call.Common().Args)-1].(*ssa.Const)
+			if !isK || k.Value == nil || k.Value.Kind() != constant.String {
+				okAll = false
+				break
+			}
+			rule = constant.StringVal(k.Value)
+		}
+		if okAll && rule != "" {
+			enableOf[fn] = rule
+		}
+	}
 	marked := map[string]map[string]bool{} // element type -> rules under whose IsEnable it is marked used
 	for _, fn := range lfuncs {
 		for _, b := range fn.Blocks {
 			for _, in := range b.Instrs {
 				call, ok := in.(*ssa.Call)
-				if !ok || call.Common().StaticCallee() != isEnable || call.Referrers() == nil {
+				if !ok || call.Referrers() == nil {
 					continue
 				}
-				k, isK := call.Common().Args[len(call.Common().Args)-1].(*ssa.Const)
-				if !isK || k.Value == nil || k.Value.Kind() != constant.String {
+				rule := ""
+				if call.Common().StaticCallee() == isEnable {
+					k, isK := call.Common().Args[len(call.Common().Args)-1].(*ssa.Const)
+					if !isK || k.Value == nil || k.Value.Kind() != constant.String {
+						continue
+					}
+					rule = constant.StringVal(k.Value)
+				} else if r, isHelper := enableOf[call.Common().StaticCallee()]; isHelper {
+					rule = r
+				} else {
 					continue
 				}
-				rule := constant.StringVal(k.Value)
 				var arms []*ssa.BasicBlock
 				for _, blk := range fn.Blocks {
 					if core.DominatedByTrue(call, blk) {
@@ -362,14 +394,65 @@ func checkDeferredDiagnostics(c *core.Ctx) {
 		}
 		return pi.Offset < pj.Offset
 	})
+	// a reporting helper that takes the rule as a parameter (`reportDuplicated(err, meta, rule)`) is judged once per call
+	// with a constant rule
+	callsOf := func(h *ssa.Function) []*ssa.Call {
+		var out []*ssa.Call
+		for _, g := range lfuncs {
+			for _, gb := range g.Blocks {
+				for _, gi := range gb.Instrs {
+					if gc, isCall := gi.(*ssa.Call); isCall && gc.Common().StaticCallee() == h {
+						out = append(out, gc)
+					}
+				}
+			}
+		}
+		sort.SliceStable(out, func(i, j int) bool { return out[i].Pos() < out[j].Pos() })
+		return out
+	}
+	ruleParamOf := func(fn *ssa.Function, v ssa.Value) int {
+		for x := range errSlice(v) {
+			call, ok := x.(*ssa.Call)
+			if !ok {
+				continue
+			}
+			cal := call.Common().StaticCallee()
+			if cal == nil || cal.Name() != "Match" {
+				continue
+			}
+			args := call.Common().Args
+			if p, isP := args[len(args)-1].(*ssa.Parameter); isP {
+				for i, q := range fn.Params {
+					if q == p {
+						return i
+					}
+				}
+			}
+		}
+		return -1
+	}
 	ord := map[string]int{}
 	for _, st := range sites {
-		{
+		rulesHere := []string{""}
+		if pi := ruleParamOf(st.fn, st.call.Common().Args[len(st.call.Common().Args)-1]); pi >= 0 {
+			rulesHere = nil
+			for _, gc := range callsOf(st.fn) {
+				if k, isK := gc.Common().Args[pi].(*ssa.Const); isK && k.Value != nil && k.Value.Kind() == constant.String {
+					rulesHere = append(rulesHere, constant.StringVal(k.Value))
+				} else {
+					rulesHere = append(rulesHere, "")
+				}
+			}
+		}
+		for _, ruleOverride := range rulesHere {
 			{
 				fn, b, call := st.fn, st.b, st.call
 				var in ssa.Instruction = call
 				arg := call.Common().Args[len(call.Common().Args)-1]
 				rule := ruleOf(arg)
+				if ruleOverride != "" {
+					rule = ruleOverride
+				}
 				elem := tableElem(arg)
 				top := fn
 				for top.Parent() != nil {
